@@ -1,0 +1,79 @@
+//go:build verif
+
+// Contracts for the deductive verifier under /verif (govc). Comment-only file: it adds no code and is
+// compiled only with the build tag "verif".
+
+package checker
+
+// ---- recursion checker (C06): depth-first bookkeeping ----------------------------------------------------------
+// The checker walks required links depth-first with a set of the types on the current chain (visited) and the chain
+// itself (path, for the message). Proved here: a type is refused exactly when it is already on the chain; every
+// function gives back the set and the chain as it found them, whatever it returns.
+
+//@ pred rcOK(c *recursionChecker) := c != nil && c.visited != nil
+
+//@ func (*recursionChecker).visit
+//@   property C06
+//@   requires rcOK(c)
+//@   modifies c.path, elems(c.path), mapof(c.visited)
+//@   ensures result == !old(typeName in c.visited)
+//@   ensures len(c.path) == old(len(c.path)) + 1 && c.path[len(c.path)-1] == typeName
+//@   ensures forall i :: 0 <= i && i < old(len(c.path)) ==> c.path[i] == old(c.path[i])
+//@   ensures typeName in c.visited
+//@   ensures forall k string :: k != typeName ==> ((k in c.visited) == old(k in c.visited))
+//@   ensures len(c.visited) == old(len(c.visited)) + (result ? 1 : 0)
+//@   ensures c.path.arr == old(c.path.arr) || fresh(c.path)
+//@   no_panic
+
+//@ func (*recursionChecker).leave
+//@   property C06
+//@   requires rcOK(c)
+//@   modifies c.path, mapof(c.visited)
+//@   ensures len(c.path) == (old(len(c.path)) > 0 ? old(len(c.path)) - 1 : 0)
+//@   ensures forall i :: 0 <= i && i < len(c.path) ==> c.path[i] == old(c.path[i])
+//@   ensures !(typeName in c.visited)
+//@   ensures forall k string :: k != typeName ==> ((k in c.visited) == old(k in c.visited))
+//@   ensures c.path.arr == old(c.path.arr)
+//@   no_panic
+
+// the set of types on the chain and the chain itself, as found
+
+//@ func (*recursionChecker).createError
+//@   property C06
+//@   requires rcOK(c)
+//@   ensures result != nil
+//@   no_panic
+
+//@ func (*recursionChecker).checkType
+//@   property C06
+//@   requires rcOK(c)
+//@   may_panic
+//@   modifies c.path, elems(c.path), mapof(c.visited)
+//@   ensures forall k string :: (k in c.visited) == old(k in c.visited)
+//@   ensures len(c.visited) == old(len(c.visited))
+//@   ensures old(typeName in c.visited) ==> result != nil
+//@   ensures len(c.path) == old(len(c.path)) && (forall i :: 0 <= i && i < len(c.path) ==> c.path[i] == old(c.path[i])) && (c.path.arr == old(c.path.arr) || fresh(c.path))
+
+//@ func (*recursionChecker).check
+//@   property C06
+//@   requires rcOK(c)
+//@   may_panic
+//@   modifies c.path, elems(c.path), mapof(c.visited)
+//@   ensures forall k string :: (k in c.visited) == old(k in c.visited)
+//@   ensures len(c.visited) == old(len(c.visited))
+//@   ensures len(c.path) == old(len(c.path)) && (forall i :: 0 <= i && i < len(c.path) ==> c.path[i] == old(c.path[i])) && (c.path.arr == old(c.path.arr) || fresh(c.path))
+//@   loop#1 invariant -1 <= rangeindex && rcOK(c) && len(c.visited) == old(len(c.visited)) && (forall k string :: (k in c.visited) == old(k in c.visited))
+//@   loop#1 invariant len(c.path) == old(len(c.path)) && (forall i :: 0 <= i && i < len(c.path) ==> c.path[i] == old(c.path[i])) && (c.path.arr == old(c.path.arr) || fresh(c.path))
+
+//@ func (*recursionChecker).checkMixedValueNode
+//@   property C06
+//@   requires rcOK(c)
+//@   may_panic
+//@   modifies c.path, elems(c.path), mapof(c.visited)
+//@   ensures forall k string :: (k in c.visited) == old(k in c.visited)
+//@   ensures len(c.visited) == old(len(c.visited))
+//@   ensures len(c.path) == old(len(c.path)) && (forall i :: 0 <= i && i < len(c.path) ==> c.path[i] == old(c.path[i])) && (c.path.arr == old(c.path.arr) || fresh(c.path))
+//@   at call:GetTypes.after bind tt = ret0
+//@   loop#1 invariant (ee.arr == 0 || (fresh(ee.arr) && live(ee.arr)))
+//@   loop#1 invariant -1 <= rangeindex && rangeindex < len(tt) && rcOK(c) && len(c.visited) == old(len(c.visited)) && (forall k string :: (k in c.visited) == old(k in c.visited))
+//@   loop#1 invariant len(c.path) == old(len(c.path)) && (forall i :: 0 <= i && i < len(c.path) ==> c.path[i] == old(c.path[i])) && (c.path.arr == old(c.path.arr) || fresh(c.path))
